@@ -413,6 +413,49 @@ let code_span_case (src : string) (lines : string) (adv : string) : string =
     Printf.sprintf "%d,%s|%s@%d,%s" (int_of_z l0) (seg_str p0) body (int_of_z l) (seg_str p)
   with Model_panic s -> s | Exit -> "skip"
 
+(* ---------- indented code blocks (CodeBlock.v): the driver's line loop ---------- *)
+let seg_str_f (s : seg) = Printf.sprintf "%d,%d,%d,%s" (int_of_z s.s_start) (int_of_z s.s_stop) (int_of_z s.s_pad) (s_of_bool s.s_fnl)
+let code_block_case (src : string) (plen : string) (pad : string) : string =
+  let b = bytes_of_hex src in
+  let plen = int_of_string plen and pad = int_of_string pad in
+  let parts = ref [] in
+  let add s = parts := s :: !parts in
+  (try
+    let skip r = if pad > 0 then un (r_advance_and_set_padding r (z_of_int plen) (z_of_int pad))
+                 else if plen > 0 then un (r_advance r (z_of_int plen)) else r in
+    let at_eof r = (match un (r_peek_line r) with ((_, None), _) -> true | _ -> false) in
+    let r = skip (new_reader b) in
+    (match un (codeBlockOpen r) with
+     | None -> add "nil"
+     | Some (sg, r) ->
+       add ("open:" ^ seg_str_f sg);
+       let lines = ref [sg] in
+       let r = ref r in
+       let fin = ref false in
+       while not !fin do
+         r := r_advance_line !r;
+         if at_eof !r then fin := true
+         else begin
+           r := skip !r;
+           if at_eof !r then fin := true
+           else match un (codeBlockContinue !r) with
+             | Inr () -> add "close"; fin := true
+             | Inl (sg, r') -> lines := !lines @ [sg]; r := r'; add ("cont:" ^ seg_str_f sg)
+         end
+       done;
+       let (l, p) = r_position !r in
+       add (Printf.sprintf "@%d,%s" (int_of_z l) (seg_str p));
+       let ls = un (codeBlockClose b !lines) in
+       add ("lines:" ^ String.concat ";" (List.map seg_str_f ls)))
+  with Model_panic s -> add s);
+  (match !parts with
+   | ["nil"] -> "nil"
+   | ps -> let ps = List.rev ps in
+     (* a panic message is appended to the last element, as on the Go side *)
+     (match List.rev ps with
+      | ("PANIC" | "FUEL" as m) :: rest -> String.concat "|" (List.rev rest) ^ m
+      | _ -> String.concat "|" ps))
+
 let eval (fn : string) (args : string list) : string =
   match fn, args with
   | "AstProg", [n; prog] -> let (_, _, o) = run_ast_prog (int_of_string n) prog in o
@@ -450,6 +493,7 @@ let eval (fn : string) (args : string list) : string =
      | Ok (Some (((co, cc), len), _)) -> Printf.sprintf "%s%s:%d" (s_of_bool co) (s_of_bool cc) (int_of_z len)
      | Panic -> "PANIC" | OutOfFuel -> "FUEL")
   | "CodeSpan", [src; lines; adv] -> code_span_case src lines adv
+  | "CodeBlockRun", [src; plen; pad; _] -> code_block_case src plen pad
   | "SpecDoc", [tabs; fnl; ser] -> specdoc_case tabs fnl ser
   | ("ListItemOpen" | "ThematicBreak" | "AtxOpen" | "FenceOpen" | "FenceContinue"), _ -> block_case fn args
   | "RenderTree", [cfg; src; tree] ->
